@@ -326,7 +326,7 @@ impl Property for C18 {
     fn cases(&self, tier: Tier) -> usize {
         match tier {
             Tier::Quick => 300_000,
-            Tier::Thorough => 1_500_000,
+            Tier::Thorough => 10_000_000,
         }
     }
     fn strategy(&self, _tier: Tier) -> BoxedStrategy<C18Case> {
